@@ -342,6 +342,31 @@ def probe_inputs(ctx, rng):
     check("UniverseLaws", b_laws_proxy, lambda: [("edge_whitelist", None, MAP_MUTS)],
           lambda w: {repr(k): sorted(map(repr, v.items())) for k, v in w.edge_whitelist.items()})
 
+    def b_laws_rowtypes(kind):
+        import collections
+        import types
+
+        def build():
+            lower = {Vertex: DirectedEdge}
+            upper = {Universe: UnDirectedEdge}
+            if kind == "chainmap":
+                row = collections.ChainMap(upper, lower)   # .copy() of a ChainMap shares every layer but the first
+            elif kind == "ordered":
+                row = collections.OrderedDict(list(lower.items()) + list(upper.items()))
+            elif kind == "userdict":
+                row = collections.UserDict(dict(lower, **{}))
+            else:
+                row = types.MappingProxyType(lower)
+            wl = {Vertex: row, Universe: {Vertex: UnDirectedEdge}}
+            return UniverseLaws(edge_whitelist=wl), [("edge_whitelist", wl), ("lower_layer", lower)]
+
+        return build
+
+    for kind in ("chainmap", "ordered", "userdict", "proxy_row"):
+        check("UniverseLaws", b_laws_rowtypes(kind),
+              lambda: [("edge_whitelist", None, ["setitem", "clear"]), ("lower_layer", None, ["dset2", "dclear"])],
+              lambda w: {repr(k): sorted(map(repr, v.items())) for k, v in w.edge_whitelist.items()})
+
     def b_laws_empty():
         wl = {}
         return UniverseLaws(edge_whitelist=wl), [("edge_whitelist", wl)]
@@ -384,6 +409,10 @@ def mutate(cont, kind, foreign):  # noqa: F811 - extends the kinds above with di
         return "mutated"
     if kind == "dclear":
         cont.clear()
+        return "mutated"
+    if kind == "dset2":
+        cont[Link] = Link
+        cont[Vertex] = Link
         return "mutated"
     if kind == "dpop":
         cont.pop(next(iter(cont)))
